@@ -123,6 +123,24 @@ def precedence_family(max_leaves=4):
     return out
 
 
+TRICKY_FLOATS = [0.1, 0.30000000000000004, 1 / 3, 1e-5, 1e22, 1.5e300, 5e-324, 2.2250738585072014e-308,
+                 1.7976931348623157e308, 9007199254740992.0, 123456789.12345679, 12345678901234567.0, -0.0, -2.5]
+TRICKY_INTS = [2147483647, -2147483648, -1, 65536, 46341]
+
+
+def literal_family():
+    """Every literal spelling class on its own and next to a variable: what the printers must carry over
+    digit for digit (17 significant digits for a double, the int32 extremes)."""
+    out = []
+    for v in TRICKY_FLOATS:
+        lit = ir.FloatLiteral(v)
+        out += [(lit, FLT), (ir.Multiply(XF, lit), FLT), (ir.Add(lit, XI), FLT), (ir.Subtract(XF, lit), FLT)]
+    for v in TRICKY_INTS:
+        lit = ir.IntegerLiteral(v)
+        out += [(lit, INT), (ir.Max(XI, lit), INT), (ir.Multiply(XF, lit), FLT), (ir.LessThan(XI, lit), BOOL)]
+    return out
+
+
 def logic_family():
     """Depth-2 trees whose operators are comparisons / min / max / and / or / bool-to-int over a
     reduced leaf set (precedence of && over ||, nesting of comparisons inside logic)."""
